@@ -154,6 +154,8 @@ class NativeBackend:
     def den_x(self, cl, e): return all(cl.fn(r) == e.fn(r) for r in ALL_ROWS)
     def den_p(self, cl, p): return all(bool(cl.fn(r)) == bool(p.fn(r)) for r in ALL_ROWS)
     def i(self, n): return n
+    def emod(self, a, b): return a % b if b > 0 else 0
+    def ediv(self, a, b): return a // b if b > 0 else 0
     def add(self, a, b): return a + b
     def sub(self, a, b): return a - b
     def mul(self, a, b): return a * b
